@@ -87,8 +87,84 @@ pub fn exec(s: &mut CrdtSession, toks: &[&str], enc: TextEncoding) -> Vec<String
                 }
             }
         }
+        // crdt.x.mutload r <n> <seed> : C16 — n checksum-fixed mutants of save(r); every mutant that LOADS must
+        // behave like a valid document: reads do not panic, an edit and a merge work, save→load is equal.
+        // output: `ok accepted=<a> rejected=<b>` (the model does not decode document chunks: `skip`)
+        "crdt.x.mutload" => {
+            use sha2::Digest;
+            let n: usize = toks[2].parse().unwrap();
+            let mut rng = Rng::new(toks[3].parse().unwrap());
+            let d = s.replicas.get_mut(toks[1]).unwrap();
+            let deflate = rng.chance(1, 2);
+            let bytes = d.save_with_options(automerge::SaveOptions { deflate, retain_orphans: true });
+            let bounds = crdt::chunk_bounds(&bytes);
+            let mut res = vec![];
+            let (mut acc, mut rej) = (0, 0);
+            for m in 0..n {
+                let mut b = bytes.clone();
+                // pick a chunk, mutate 1..3 body bytes, recompute its checksum
+                let (ty, _, start, end) = bounds[rng.below(bounds.len() as u64) as usize].clone();
+                let mut rd = &b[start + 9..];
+                let before = rd.len();
+                let len = leb128::read::unsigned(&mut rd).unwrap() as usize;
+                let hdr = 9 + (before - rd.len());
+                if len == 0 { continue; }
+                for _ in 0..rng.range(1, 3) {
+                    let i = start + hdr + rng.below(len as u64) as usize;
+                    b[i] = match rng.below(5) { 0 => 0, 1 => 0xff, 2 => b[i].wrapping_add(1), 3 => b[i].wrapping_sub(1), _ => rng.next() as u8 };
+                }
+                let mut h = sha2::Sha256::new();
+                let mut pre = vec![ty];
+                leb128::write::unsigned(&mut pre, len as u64).unwrap();
+                h.update(&pre); h.update(&b[start + hdr..end]);
+                let hash = h.finalize();
+                b[start + 4..start + 8].copy_from_slice(&hash[..4]);
+                // `load_unverified_heads` is documented as a debugging aid for examining corrupted documents: outside C16
+                let unverified = false;
+                let loaded = std::panic::catch_unwind(|| if unverified { AutoCommit::load_unverified_heads(&b) } else { AutoCommit::load_with_options(&b, automerge::LoadOptions::new().text_encoding(enc)) });
+                let mut l = match loaded { Ok(Ok(l)) => l, Ok(Err(_)) => { rej += 1; continue; } Err(_) => { rej += 1; continue; /* load panics are C15's subject */ } };
+                acc += 1;
+                let tag = format!("mutant {} of seed {} ({}{})", m, toks[3], if unverified { "unverified heads, " } else { "" }, if deflate { "deflated" } else { "plain" });
+                // (1) every read succeeds without panicking
+                let reads = std::panic::catch_unwind(std::panic::AssertUnwindSafe(|| {
+                    let st = show_doc(&l, None, enc);
+                    let hs = l.get_heads();
+                    let _ = show_doc(&l, Some(&hs), enc);
+                    let cs = l.get_changes(&[]);
+                    for c in cs.iter().take(6) { let _ = show_doc(&l, Some(&[c.hash()]), enc); }
+                    let _ = l.get_missing_deps(&[]);
+                    st
+                }));
+                let st = match reads { Ok(st) => st, Err(_) => { res.push(format!("! C16 sig=read-panics a document that loaded panics on reads: {} [at {}]", tag, panic_file())); continue; } };
+                // (2) save -> load gives an equal document
+                let again = std::panic::catch_unwind(std::panic::AssertUnwindSafe(|| { let sv = l.save(); AutoCommit::load_with_options(&sv, automerge::LoadOptions::new().text_encoding(enc)).map(|x| (show_doc(&x, None, enc), x.clone().get_heads())) }));
+                match again {
+                    Ok(Ok((st2, h2))) => { if st2 != st || h2 != l.get_heads() { res.push(format!("! C16 sig=resave-differs save→load of a document that loaded shows a different document: {}", tag)); } }
+                    Ok(Err(_)) => res.push(format!("! C16 sig=resave-unloadable save() of a document that loaded does not load: {}", tag)),
+                    Err(_) => res.push(format!("! C16 sig=resave-panics save/load of a document that loaded panics: {} [at {}]", tag, panic_file())),
+                }
+                // (3) an edit and a merge with its own fork work
+                let edit = std::panic::catch_unwind(std::panic::AssertUnwindSafe(|| {
+                    let mut f = l.fork().with_actor(ActorId::from(vec![0xfd, 0x01]));
+                    f.put(ROOT, "__c16", 1i64)?; f.commit();
+                    l.put(ROOT, "__c16b", 2i64)?; l.commit();
+                    l.merge(&mut f)?;
+                    let _ = show_doc(&l, None, enc);
+                    Ok::<(), automerge::AutomergeError>(())
+                }));
+                match edit { Ok(Ok(())) => {}, Ok(Err(e)) => res.push(format!("! C16 sig=edit-fails edit/merge on a document that loaded fails ({}): {}", crdt::err_class(&e), tag)), Err(_) => res.push(format!("! C16 sig=edit-panics edit/merge on a document that loaded panics: {} [at {}]", tag, panic_file())) }
+            }
+            res.insert(0, format!("ok accepted={} rejected={}", acc, rej));
+            res
+        }
         _ => vec!["unknown-cmd".into()],
     }
+}
+
+/// file (without line) of the last panic recorded by the harness' panic hook
+fn panic_file() -> String {
+    let l = std::mem::take(&mut *crate::LAST_PANIC_LOC.lock().unwrap());
+    l.rsplit_once(':').map(|x| x.0.to_string()).unwrap_or(l)
 }
 
 /// compare the reachable tree before / after migration
@@ -177,6 +253,9 @@ pub fn generate(r: &mut Rng, _opts: &BTreeMap<String, String>, sess: &mut Sessio
         exec_line(sess, "crdt.state r1", out);
         exec_line(sess, "crdt.state r0", out);
     }
+    // C16: checksum-fixed mutants of the saved document
+    let ms = r.next() % 1_000_000;
+    exec_line(sess, &format!("crdt.x.mutload r0 40 {}", ms), out);
     // C40: string migration of the converged document and of an intermediate one
     exec_line(sess, "crdt.x.migrate r0 m0", out);
     exec_line(sess, "crdt.x.migrate r1 m1", out);
